@@ -67,8 +67,14 @@ def check(rep, tier, seed):
             j = rng.randrange(len(d["variants"]))      # also the transient ones
             v = f"({j}" + "".join(" " + G.gen_value_d(rng, f["ty"], env, 0.5, 1) for f in d["variants"][j]["fields"]) + ")"
         else:
-            if rng.random() < 0.3:
-                d["steps"].append(("opt", "nosuch" + str(rng.randrange(3))))      # dangling reference
+            if rng.random() < 0.4:
+                # a FieldMadeOptional step naming a field that is never written (misspelt, or transient): anywhere in
+                # the history - before and after removal steps - and possibly more than one
+                for _k in range(rng.choice([1, 1, 2])):
+                    d["steps"].insert(rng.randrange(len(d["steps"]) + 1), ("opt", "nosuch" + str(rng.randrange(3))))
+                if rng.random() < 0.5:
+                    d["steps"].append((rng.choice(["rem", "rem", "tra"]), "gone" + str(rng.randrange(2))) if rng.random() < 0.7
+                                      else ("rem", "nosuch0"))
             v = G.gen_value_d(rng, t, env, 0.8, 0)
         cases.append(R.mk(env, t, v, "-", "enc"))
     big = {"kind": "rec", "name": "Big", "fields": [{"name": "a", "ty": G.P("u8"), "opt": False, "transient": None}],
